@@ -492,3 +492,454 @@ Proof.
     + intros m Hm. unfold w'. rewrite getn_new. destruct (Z.eqb_spec m n) as [E2|E2]; [|reflexivity].
       subst m. exfalso. pose proof (desc_has w known ir n F Hh Hm). congruence.
 Qed.
+
+(* ================================================================== *)
+(* the list primitives in terms of detach / attach                     *)
+(* ================================================================== *)
+
+Lemma ml_del_at_detach w known ir i v :
+  Forest w known -> nth_error (kids w ir) i = Some v ->
+  ml_del_at w ir i = (detach w ir v, snd (ml_remove_hook w ir v)).
+Proof.
+  intros F H. unfold ml_del_at. rewrite H. unfold detach.
+  destruct (ml_remove_hook w ir v) as [w1 ok] eqn:E. cbn [fst snd].
+  assert (Hk : kids w1 = kids w) by (change w1 with (fst (w1, ok)); rewrite <- E; reflexivity).
+  unfold with_kids. rewrite Hk. rewrite (remove_at_nth_nodup (kids w ir) i v (f_nodup w known F ir) H). reflexivity.
+Qed.
+
+Lemma ml_remove_in w known ir v :
+  Forest w known -> In v (kids w ir) -> ml_remove w ir v = Ok (detach w ir v, snd (ml_remove_hook w ir v)).
+Proof.
+  intros F H. unfold ml_remove. destruct (index_of_In v (kids w ir) H) as [i Hi]. rewrite Hi.
+  rewrite (ml_del_at_detach w known ir i v F (index_of_nth v (kids w ir) i Hi)). reflexivity.
+Qed.
+
+Lemma ml_remove_notin w ir v : ~ In v (kids w ir) -> ml_remove w ir v = Err EValue.
+Proof. intro H. unfold ml_remove. rewrite (index_of_None v (kids w ir) H). reflexivity. Qed.
+
+Definition pre_detach (w : world) (v : id) : world :=
+  match par w v with Some old => detach w old v | None => w end.
+
+Definition pre_flag (w : world) (v : id) : bool :=
+  match par w v with Some old => snd (ml_remove_hook w old v) | None => true end.
+
+Lemma ml_add_hook_eq w known ir v :
+  Forest w known ->
+  ml_add_hook w ir v = (cache_add (set_par (pre_detach w v) v (Some ir)) ir v, pre_flag w v).
+Proof.
+  intro F. unfold ml_add_hook, pre_detach, pre_flag. destruct (par w v) as [old|] eqn:E; [|reflexivity].
+  rewrite (ml_remove_in w known old v F); [reflexivity|]. apply (f_two_ended w known F). exact E.
+Qed.
+
+Lemma ml_insert_eq w known ir i v :
+  Forest w known ->
+  ml_insert w ir i v =
+  (attach (pre_detach w v) ir v
+     (insert_at (clamp_insert i (length (kids (pre_detach w v) ir))) v (kids (pre_detach w v) ir)), pre_flag w v).
+Proof. intro F. unfold ml_insert. rewrite (ml_add_hook_eq w known ir v F). reflexivity. Qed.
+
+Lemma pre_detach_inv w known v :
+  Forest w known -> CacheInv w -> has w v = true -> kindof w v = KMod ->
+  Forest (pre_detach w v) known /\ CacheInv (pre_detach w v) /\ pre_flag w v = true /\
+  par (pre_detach w v) v = None /\
+  (forall x, has (pre_detach w v) x = has w x) /\ (forall x, kindof (pre_detach w v) x = kindof w x).
+Proof.
+  intros F C Hv Kv. unfold pre_detach, pre_flag. destruct (par w v) as [old|] eqn:E.
+  - destruct (parent_of_mod_is_ir w known v old F Kv E) as [Ko Ho].
+    assert (Hin : In v (kids w old)) by (apply (f_two_ended w known F); exact E).
+    destruct (detach_inv w known old v F C Ho Ko Hin) as [F' [C' Hf]].
+    refine (conj F' (conj C' (conj Hf (conj _ (conj _ _))))).
+    + apply par_detach_same.
+    + intro x. apply has_detach. exact Hv.
+    + intro x. apply kindof_detach.
+  - refine (conj F (conj C (conj eq_refl (conj E (conj _ _))))); intro x; reflexivity.
+Qed.
+
+Lemma insert_inv w known ir i v :
+  Forest w known -> CacheInv w -> is_k w ir KIR = true -> is_k w v KMod = true ->
+  Forest (fst (ml_insert w ir i v)) known /\ CacheInv (fst (ml_insert w ir i v)) /\ snd (ml_insert w ir i v) = true.
+Proof.
+  intros F C Hir Hv. apply is_k_spec in Hir. destruct Hir as [Hir Kir]. apply is_k_spec in Hv. destruct Hv as [Hv Kv].
+  rewrite (ml_insert_eq w known ir i v F). cbn [fst snd].
+  destruct (pre_detach_inv w known v F C Hv Kv) as [F1 [C1 [Hf [Pv [Hh Hk]]]]].
+  assert (Hnin : ~ In v (kids (pre_detach w v) ir)).
+  { intro H. apply (f_two_ended _ known F1) in H. congruence. }
+  destruct (attach_inv (pre_detach w v) known ir v
+              (insert_at (clamp_insert i (length (kids (pre_detach w v) ir))) v (kids (pre_detach w v) ir))) as [F2 C2];
+    try assumption.
+  - rewrite Hh. exact Hir.
+  - rewrite Hk. exact Kir.
+  - rewrite Hh. exact Hv.
+  - rewrite Hk. exact Kv.
+  - apply NoDup_insert_at; [apply (f_nodup _ known F1)|exact Hnin].
+  - intro x. apply In_insert_at.
+  - auto.
+Qed.
+
+Lemma flagged_true (r : world * bool) : snd r = true -> flagged r = Ok (fst r).
+Proof. destruct r as [w b]. cbn. intro H. subst. reflexivity. Qed.
+
+Lemma norm_index_lt i len k : norm_index i len = Some k -> (k < len)%nat.
+Proof.
+  unfold norm_index. destruct ((0 <=? i) && (i <? Z.of_nat len)) eqn:E1.
+  - intro H. inversion H. apply andb_true_iff in E1. destruct E1 as [A B]. apply Z.leb_le in A. apply Z.ltb_lt in B. lia.
+  - destruct ((i <? 0) && (0 <=? i + Z.of_nat len)) eqn:E2; [|discriminate].
+    intro H. inversion H. apply andb_true_iff in E2. destruct E2 as [A B]. apply Z.ltb_lt in A. apply Z.leb_le in B. lia.
+Qed.
+
+Lemma nth_error_lt {X} (l : list X) k : (k < length l)%nat -> exists v, nth_error l k = Some v.
+Proof. intro H. destruct (nth_error l k) as [v|] eqn:E; [exists v; reflexivity|]. apply nth_error_None in E. lia. Qed.
+
+(* ================================================================== *)
+(* the operations                                                      *)
+(* ================================================================== *)
+
+Definition F2 (w : world) (o : op) : Prop :=
+  match o with
+  | ONew _ _ _ _ _ _ _ _ | OModAppend _ _ | OModInsert _ _ _ | OModExtend _ _ | OModRemove _ _ | OModPop _ _
+  | OModDelItem _ _ | OModDelSlice _ _ _ | OModSetItem _ _ _ | OModSetSlice _ _ _ _ | OModClear _ | OModReverse _ => True
+  | OSetParent c _ => kindof w c = KMod
+  | _ => False
+  end.
+
+Definition Good (w : world) (known : list id) (o : op) : Prop :=
+  (Forest (step' w o) (known_after o known) /\ CacheInv (step' w o)) /\ step w o <> Err EKey.
+
+Lemma step'_ok w o w' : step w o = Ok w' -> step' w o = w'.
+Proof. intro H. unfold step'. rewrite H. reflexivity. Qed.
+
+Lemma step'_err w o e : step w o = Err e -> step' w o = w.
+Proof. intro H. unfold step'. rewrite H. reflexivity. Qed.
+
+Lemma good_ok w known o w' :
+  step w o = Ok w' -> Forest w' (known_after o known) -> CacheInv w' -> Good w known o.
+Proof.
+  intros H F C. unfold Good. rewrite (step'_ok w o w' H). split; [split; assumption|]. rewrite H. discriminate.
+Qed.
+
+Lemma good_err w known o e :
+  step w o = Err e -> e <> EKey -> known_after o known = known -> Forest w known -> CacheInv w -> Good w known o.
+Proof.
+  intros H He Hk F C. unfold Good. rewrite (step'_err w o e H), Hk. split; [split; assumption|]. rewrite H. congruence.
+Qed.
+
+Lemma kind_eqb_eq a b : kind_eqb a b = true -> a = b.
+Proof. destruct a, b; cbn; intro H; try discriminate; reflexivity. Qed.
+
+(* ---- ONew ---- *)
+Lemma good_new w known n k u a s f nm p :
+  Forest w known -> CacheInv w -> op_okb w known (ONew n k u a s f nm p) = true -> Good w known (ONew n k u a s f nm p).
+Proof.
+  intros F C G. cbn [op_okb] in G. repeat (apply andb_true_iff in G; destruct G as [G ?]).
+  apply negb_true_iff in G. match goal with H : negb (mem n known) = true |- _ => apply negb_true_iff in H; apply mem_false in H; rename H into Hk end.
+  destruct (new_inv w known n k u a s f nm p F C G Hk) as [F' C']; [assumption|].
+  apply (good_ok w known _ (new_world w n k u a s f nm p)); [apply step_new|exact F'|exact C'].
+Qed.
+
+(* ---- insert / append ---- *)
+Lemma step_insert w ir i v : step w (OModInsert ir i v) = flagged (ml_insert w ir i v).
+Proof. reflexivity. Qed.
+Lemma step_append w ir v : step w (OModAppend ir v) = flagged (ml_insert w ir (Z.of_nat (length (kids w ir))) v).
+Proof. reflexivity. Qed.
+
+Lemma good_insert w known ir i v :
+  Forest w known -> CacheInv w -> op_okb w known (OModInsert ir i v) = true -> Good w known (OModInsert ir i v).
+Proof.
+  intros F C G. cbn [op_okb] in G. apply andb_true_iff in G. destruct G as [G1 G2].
+  destruct (insert_inv w known ir i v F C G1 G2) as [F' [C' Hf]].
+  apply (good_ok w known _ (fst (ml_insert w ir i v))); [|exact F'|exact C'].
+  rewrite step_insert. apply flagged_true. exact Hf.
+Qed.
+
+Lemma good_append w known ir v :
+  Forest w known -> CacheInv w -> op_okb w known (OModAppend ir v) = true -> Good w known (OModAppend ir v).
+Proof.
+  intros F C G. cbn [op_okb] in G. apply andb_true_iff in G. destruct G as [G1 G2].
+  destruct (insert_inv w known ir (Z.of_nat (length (kids w ir))) v F C G1 G2) as [F' [C' Hf]].
+  apply (good_ok w known _ (fst (ml_insert w ir (Z.of_nat (length (kids w ir))) v))); [|exact F'|exact C'].
+  rewrite step_append. apply flagged_true. exact Hf.
+Qed.
+
+(* ---- remove / pop / del item ---- *)
+Lemma step_remove w ir v : step w (OModRemove ir v) = (do r <- ml_remove w ir v; flagged r).
+Proof. reflexivity. Qed.
+
+Lemma step_remove_in w known ir v :
+  Forest w known -> CacheInv w -> is_k w ir KIR = true -> In v (kids w ir) ->
+  step w (OModRemove ir v) = Ok (detach w ir v).
+Proof.
+  intros F C G H. apply is_k_spec in G. destruct G as [Hir Kir].
+  destruct (detach_inv w known ir v F C Hir Kir H) as [_ [_ Hf]].
+  rewrite step_remove, (ml_remove_in w known ir v F H). cbn [bind]. rewrite flagged_true by exact Hf. reflexivity.
+Qed.
+
+Lemma step_remove_notin w ir v : ~ In v (kids w ir) -> step w (OModRemove ir v) = Err EValue.
+Proof. intro H. rewrite step_remove, (ml_remove_notin w ir v H). reflexivity. Qed.
+
+Lemma good_remove w known ir v :
+  Forest w known -> CacheInv w -> op_okb w known (OModRemove ir v) = true -> Good w known (OModRemove ir v).
+Proof.
+  intros F C G. cbn [op_okb] in G. apply andb_true_iff in G. destruct G as [G1 G2].
+  destruct (in_dec Z.eq_dec v (kids w ir)) as [H|H].
+  - pose proof G1 as G1'. apply is_k_spec in G1'. destruct G1' as [Hir Kir].
+    destruct (detach_inv w known ir v F C Hir Kir H) as [F' [C' _]].
+    apply (good_ok w known _ (detach w ir v)); [|exact F'|exact C'].
+    apply (step_remove_in w known); assumption.
+  - apply (good_err w known _ EValue); [apply step_remove_notin; exact H|discriminate|reflexivity|exact F|exact C].
+Qed.
+
+Definition del_step (w : world) (ir : id) (i : Z) : res world :=
+  match norm_index i (length (kids w ir)) with
+  | Some k => flagged (ml_del_at w ir k)
+  | None => Err EIndex
+  end.
+
+Lemma step_pop w ir i : step w (OModPop ir i) = del_step w ir i. Proof. reflexivity. Qed.
+Lemma step_delitem w ir i : step w (OModDelItem ir i) = del_step w ir i. Proof. reflexivity. Qed.
+
+Lemma del_step_some w known ir i k :
+  Forest w known -> CacheInv w -> is_k w ir KIR = true -> norm_index i (length (kids w ir)) = Some k ->
+  exists v, nth_error (kids w ir) k = Some v /\ del_step w ir i = Ok (detach w ir v).
+Proof.
+  intros F C G H. apply is_k_spec in G. destruct G as [Hir Kir].
+  destruct (nth_error_lt (kids w ir) k (norm_index_lt _ _ _ H)) as [v Hv]. exists v. split; [exact Hv|].
+  destruct (detach_inv w known ir v F C Hir Kir (nth_error_In _ _ Hv)) as [_ [_ Hf]].
+  unfold del_step. rewrite H, (ml_del_at_detach w known ir k v F Hv). rewrite flagged_true by exact Hf. reflexivity.
+Qed.
+
+Lemma del_step_none w ir i : norm_index i (length (kids w ir)) = None -> del_step w ir i = Err EIndex.
+Proof. intro H. unfold del_step. rewrite H. reflexivity. Qed.
+
+Lemma good_del w known ir i o :
+  Forest w known -> CacheInv w -> is_k w ir KIR = true -> step w o = del_step w ir i -> known_after o known = known ->
+  Good w known o.
+Proof.
+  intros F C G Hs Hk. destruct (norm_index i (length (kids w ir))) as [k|] eqn:E.
+  - destruct (del_step_some w known ir i k F C G E) as [v [Hv Hd]].
+    apply is_k_spec in G. destruct G as [Hir Kir].
+    destruct (detach_inv w known ir v F C Hir Kir (nth_error_In _ _ Hv)) as [F' [C' _]].
+    apply (good_ok w known o (detach w ir v)); [congruence|rewrite Hk; exact F'|exact C'].
+  - apply (good_err w known o EIndex); [rewrite Hs; apply del_step_none; exact E|discriminate|exact Hk|exact F|exact C].
+Qed.
+
+(* ---- reverse ---- *)
+Lemma step_reverse w ir : step w (OModReverse ir) = Ok (with_kids w ir (rev (kids w ir))).
+Proof. reflexivity. Qed.
+
+Lemma relist_inv w known ir L :
+  Forest w known -> CacheInv w -> NoDup L -> (forall x, In x L <-> In x (kids w ir)) ->
+  Forest (with_kids w ir L) known /\ CacheInv (with_kids w ir L).
+Proof.
+  intros F C HL HLin.
+  assert (F' : Forest (with_kids w ir L) known).
+  { constructor.
+    - intro n. rewrite has_with_kids. apply (f_known w known F).
+    - intros p c. rewrite par_with_kids. destruct (Z.eqb_spec p ir) as [E|E].
+      + subst. rewrite kids_with_kids_same, HLin. apply (f_two_ended w known F).
+      + rewrite kids_with_kids_other by exact E. apply (f_two_ended w known F).
+    - intro p. destruct (Z.eqb_spec p ir) as [E|E].
+      + subst. rewrite kids_with_kids_same. exact HL.
+      + rewrite kids_with_kids_other by exact E. apply (f_nodup w known F).
+    - intros p c. rewrite par_with_kids, !has_with_kids, !kindof_with_kids. apply (f_kind w known F).
+    - intros a b. rewrite !getn_with_kids. apply (f_uuid w known F). }
+  split; [exact F'|]. intros ir' Hh Hk. rewrite has_with_kids in Hh. rewrite kindof_with_kids in Hk.
+  apply (cache_frame w known (with_kids w ir L) known ir' F F' (C ir' Hh Hk)).
+  - reflexivity.
+  - intro n. apply desc_par_ext. intro x. reflexivity.
+  - intros n _. reflexivity.
+Qed.
+
+Lemma good_reverse w known ir :
+  Forest w known -> CacheInv w -> Good w known (OModReverse ir).
+Proof.
+  intros F C.
+  destruct (relist_inv w known ir (rev (kids w ir)) F C) as [F' C'].
+  - apply NoDup_rev. apply (f_nodup w known F).
+  - intro x. symmetry. apply in_rev.
+  - apply (good_ok w known _ (with_kids w ir (rev (kids w ir)))); [apply step_reverse|exact F'|exact C'].
+Qed.
+
+(* ---- the ir setter of a module ---- *)
+Lemma setparent_mod_first w known c :
+  Forest w known -> CacheInv w -> has w c = true -> kindof w c = KMod ->
+  match par w c with
+  | Some old => do r <- ml_remove w old c; flagged r
+  | None => Ok w
+  end = Ok (pre_detach w c).
+Proof.
+  intros F C Hc Kc. destruct (pre_detach_inv w known c F C Hc Kc) as [_ [_ [Hf _]]].
+  unfold pre_detach, pre_flag in *. destruct (par w c) as [old|] eqn:E; [|reflexivity].
+  rewrite (ml_remove_in w known old c F); [|apply (f_two_ended w known F); exact E].
+  cbn [bind]. rewrite flagged_true by exact Hf. reflexivity.
+Qed.
+
+Lemma step_setparent_mod w known c p :
+  Forest w known -> CacheInv w -> has w c = true -> kindof w c = KMod ->
+  step w (OSetParent c p) =
+  match p with
+  | Some ir => flagged (ml_append (pre_detach w c) ir c)
+  | None => Ok (pre_detach w c)
+  end.
+Proof.
+  intros F C Hc Kc. cbn [step]. unfold do_setparent. rewrite Kc.
+  rewrite (setparent_mod_first w known c F C Hc Kc). reflexivity.
+Qed.
+
+Lemma good_setparent_mod w known c p :
+  Forest w known -> CacheInv w -> op_okb w known (OSetParent c p) = true -> kindof w c = KMod -> Good w known (OSetParent c p).
+Proof.
+  intros F C G Kc. cbn [op_okb] in G. apply andb_true_iff in G. destruct G as [G Gp].
+  apply andb_true_iff in G. destruct G as [Hc _].
+  destruct (pre_detach_inv w known c F C Hc Kc) as [F1 [C1 [_ [_ [Hh Hk]]]]].
+  pose proof (step_setparent_mod w known c p F C Hc Kc) as Hs.
+  destruct p as [ir|].
+  - rewrite Kc in Gp. cbn [parent_kind] in Gp. apply andb_true_iff in Gp. destruct Gp as [Hq Kq]. apply kind_eqb_eq in Kq.
+    assert (G1 : is_k (pre_detach w c) ir KIR = true) by (apply is_k_spec; rewrite Hh, Hk; auto).
+    assert (G2 : is_k (pre_detach w c) c KMod = true) by (apply is_k_spec; rewrite Hh, Hk; auto).
+    destruct (insert_inv (pre_detach w c) known ir (Z.of_nat (length (kids (pre_detach w c) ir))) c F1 C1 G1 G2) as [F' [C' Hf]].
+    apply (good_ok w known _ (fst (ml_append (pre_detach w c) ir c))); [|exact F'|exact C'].
+    rewrite Hs. apply flagged_true. exact Hf.
+  - apply (good_ok w known _ (pre_detach w c)); [exact Hs|exact F1|exact C1].
+Qed.
+
+(* ================================================================== *)
+(* hooks running while ir's list is "virtually" something else         *)
+(* ================================================================== *)
+
+Lemma subtree_avoids_ir w known p v x :
+  Forest w known -> kindof w p = KIR -> kindof w v <> KIR -> In x (subtree w v) -> x <> p.
+Proof.
+  intros F Kp Kv Hx E. subst x. apply (subtree_char w known v p F) in Hx. destruct Hx as [d Hd].
+  destruct d as [|d]; [cbn in Hd; congruence|]. destruct Hd as [q [Hq _]].
+  rewrite (ir_no_parent w known p F Kp) in Hq. discriminate.
+Qed.
+
+Lemma subtree_with_kids_of w known p L v :
+  Forest (with_kids w p L) known -> kindof w p = KIR -> kindof w v <> KIR ->
+  subtree (with_kids w p L) v = subtree w v.
+Proof.
+  intros F Kp Kv. symmetry. apply subtree_agree. intros x Hx.
+  rewrite kids_with_kids_other; [reflexivity|]. apply (subtree_avoids_ir _ known p v x F); assumption.
+Qed.
+
+Lemma remove_hook_with_kids w p L ir v :
+  subtree (with_kids w p L) v = subtree w v ->
+  weq (fst (ml_remove_hook (with_kids w p L) ir v)) (with_kids (fst (ml_remove_hook w ir v)) p L) /\
+  snd (ml_remove_hook (with_kids w p L) ir v) = snd (ml_remove_hook w ir v).
+Proof.
+  intro Hs. split; [split; [|split]; intro x|].
+  - reflexivity.
+  - reflexivity.
+  - rewrite cache_with_kids, !cache_remove_hook, Hs. reflexivity.
+  - rewrite !snd_remove_hook, Hs. reflexivity.
+Qed.
+
+Lemma add_tail_with_kids w p L ir v q :
+  subtree (with_kids w p L) v = subtree w v ->
+  weq (cache_add (set_par (with_kids w p L) v q) ir v) (with_kids (cache_add (set_par w v q) ir v) p L).
+Proof.
+  intro Hs. split; [|split]; intro x.
+  - reflexivity.
+  - reflexivity.
+  - rewrite cache_with_kids, !cache_add_set_par, Hs. reflexivity.
+Qed.
+
+Lemma pre_detach_with_kids w p L v :
+  par w v <> Some p -> subtree (with_kids w p L) v = subtree w v ->
+  weq (pre_detach (with_kids w p L) v) (with_kids (pre_detach w v) p L) /\ pre_flag (with_kids w p L) v = pre_flag w v.
+Proof.
+  intros Hp Hs. unfold pre_detach, pre_flag. rewrite par_with_kids. destruct (par w v) as [old|] eqn:E.
+  - assert (Hne : old <> p) by congruence.
+    destruct (remove_hook_with_kids w p L old v Hs) as [H1 H2]. split; [|exact H2].
+    unfold detach. rewrite (kids_with_kids_other w p L old Hne).
+    eapply weq_trans; [apply weq_with_kids; exact H1|]. apply with_kids_comm. congruence.
+  - split; [apply weq_refl|reflexivity].
+Qed.
+
+Lemma ml_del_at_detach' w ir i v :
+  NoDup (kids w ir) -> nth_error (kids w ir) i = Some v ->
+  ml_del_at w ir i = (detach w ir v, snd (ml_remove_hook w ir v)).
+Proof.
+  intros F H. unfold ml_del_at. rewrite H. unfold detach.
+  destruct (ml_remove_hook w ir v) as [w1 ok] eqn:E. cbn [fst snd].
+  assert (Hk : kids w1 = kids w) by (change w1 with (fst (w1, ok)); rewrite <- E; reflexivity).
+  unfold with_kids. rewrite Hk. rewrite (remove_at_nth_nodup (kids w ir) i v F H). reflexivity.
+Qed.
+
+Lemma ml_add_hook_eq' w ir v :
+  (forall old, par w v = Some old -> In v (kids w old) /\ NoDup (kids w old)) ->
+  ml_add_hook w ir v = (cache_add (set_par (pre_detach w v) v (Some ir)) ir v, pre_flag w v).
+Proof.
+  intro F. unfold ml_add_hook, pre_detach, pre_flag. destruct (par w v) as [old|] eqn:E; [|reflexivity].
+  destruct (F old eq_refl) as [Hin Hnd]. unfold ml_remove.
+  destruct (index_of_In v (kids w old) Hin) as [i Hi]. rewrite Hi.
+  rewrite (ml_del_at_detach' w old i v Hnd (index_of_nth v (kids w old) i Hi)). reflexivity.
+Qed.
+
+Lemma remove_hook_virtual w known ir Lv v :
+  Forest (with_kids w ir Lv) known -> CacheInv (with_kids w ir Lv) -> is_k w ir KIR = true -> In v Lv ->
+  Forest (with_kids (fst (ml_remove_hook w ir v)) ir (remove_id v Lv)) known /\
+  CacheInv (with_kids (fst (ml_remove_hook w ir v)) ir (remove_id v Lv)) /\
+  snd (ml_remove_hook w ir v) = true.
+Proof.
+  intros F C G Hv. apply is_k_spec in G. destruct G as [Hir Kir].
+  set (W := with_kids w ir Lv) in *.
+  assert (HvW : In v (kids W ir)) by (unfold W; rewrite kids_with_kids_same; exact Hv).
+  destruct (detach_inv W known ir v F C Hir Kir HvW) as [F' [C' Hf]].
+  assert (Hp : par W v = Some ir) by (apply (f_two_ended W known F); exact HvW).
+  destruct (child_of_ir_is_mod W known ir v F Kir Hp) as [Kv _].
+  assert (Hs : subtree W v = subtree w v).
+  { apply (subtree_with_kids_of w known ir Lv v F Kir). change (kindof w v) with (kindof W v). congruence. }
+  destruct (remove_hook_with_kids w ir Lv ir v Hs) as [H1 H2]. fold W in H1, H2.
+  assert (Hw : weq (detach W ir v) (with_kids (fst (ml_remove_hook w ir v)) ir (remove_id v Lv))).
+  { unfold detach. unfold W at 2. rewrite kids_with_kids_same.
+    eapply weq_trans; [apply weq_with_kids; exact H1|]. apply with_kids_twice. }
+  split; [eapply Forest_weq; eassumption|]. split; [eapply CacheInv_weq; eassumption|]. congruence.
+Qed.
+
+Lemma add_hook_virtual w known ir Lv v L' :
+  Forest (with_kids w ir Lv) known -> CacheInv (with_kids w ir Lv) -> is_k w ir KIR = true -> is_k w v KMod = true ->
+  ~ In v Lv -> NoDup L' -> (forall x, In x L' <-> x = v \/ In x Lv) ->
+  Forest (with_kids (fst (ml_add_hook w ir v)) ir L') known /\
+  CacheInv (with_kids (fst (ml_add_hook w ir v)) ir L') /\
+  snd (ml_add_hook w ir v) = true.
+Proof.
+  intros F C G Gv Hnv HL HLin. apply is_k_spec in G. destruct G as [Hir Kir]. apply is_k_spec in Gv. destruct Gv as [Hv Kv].
+  set (W := with_kids w ir Lv) in *.
+  assert (HpW : par w v <> Some ir).
+  { intro E. apply Hnv. change (par w v) with (par W v) in E. apply (f_two_ended W known F) in E.
+    unfold W in E. rewrite kids_with_kids_same in E. exact E. }
+  destruct (pre_detach_inv W known v F C Hv Kv) as [F1 [C1 [Hf [Pv [Hh Hk]]]]].
+  assert (KvW : kindof w v <> KIR) by congruence.
+  assert (Hs : subtree W v = subtree w v) by (apply (subtree_with_kids_of w known ir Lv v F Kir KvW)).
+  destruct (pre_detach_with_kids w ir Lv v HpW Hs) as [H1 H2]. fold W in H1, H2.
+  (* the hook on the real world *)
+  assert (Heq : ml_add_hook w ir v = (cache_add (set_par (pre_detach w v) v (Some ir)) ir v, pre_flag w v)).
+  { apply ml_add_hook_eq'. intros old E.
+    assert (old <> ir) by congruence.
+    change (par w v) with (par W v) in E. split.
+    - apply (f_two_ended W known F) in E. unfold W in E. rewrite kids_with_kids_other in E by assumption. exact E.
+    - pose proof (f_nodup W known F old) as Hn. unfold W in Hn. rewrite kids_with_kids_other in Hn by assumption. exact Hn. }
+  rewrite Heq. cbn [fst snd].
+  (* kids of the pre-detached virtual world at ir *)
+  assert (HkW : forall x, In x (kids (pre_detach W v) ir) <-> In x Lv).
+  { intro x. destruct H1 as [_ [H1k _]]. rewrite H1k, kids_with_kids_same. reflexivity. }
+  destruct (attach_inv (pre_detach W v) known ir v L') as [F2 C2]; try assumption.
+  - rewrite Hh. exact Hir.
+  - rewrite Hk. exact Kir.
+  - rewrite Hh. exact Hv.
+  - rewrite Hk. exact Kv.
+  - intro x. rewrite HLin, HkW. reflexivity.
+  - assert (Hs2 : subtree (with_kids (pre_detach w v) ir Lv) v = subtree (pre_detach w v) v).
+    { apply (subtree_with_kids_of (pre_detach w v) known ir Lv v).
+      - eapply Forest_weq; [exact H1|exact F1].
+      - pose proof (weq_kindof _ _ ir H1) as Hq. rewrite kindof_with_kids in Hq. rewrite <- Hq, Hk. exact Kir.
+      - pose proof (weq_kindof _ _ v H1) as Hq. rewrite kindof_with_kids in Hq. rewrite <- Hq, Hk. exact KvW. }
+    assert (Hw : weq (attach (pre_detach W v) ir v L')
+                     (with_kids (cache_add (set_par (pre_detach w v) v (Some ir)) ir v) ir L')).
+    { unfold attach.
+      eapply weq_trans; [apply weq_with_kids; apply weq_cache_add; apply weq_set_par; exact H1|].
+      eapply weq_trans; [apply weq_with_kids; apply add_tail_with_kids; exact Hs2|].
+      apply with_kids_twice. }
+    split; [eapply Forest_weq; eassumption|]. split; [eapply CacheInv_weq; eassumption|]. congruence.
+Qed.
